@@ -293,3 +293,7 @@ package treemap
 //@     invariant forall x like m.tree.Root :: fresh(x) ==> x.tr == newMap.tree || x.tr == nil
 //@     invariant forall j :: 0 <= j && j <= Cur(iterator) && j < N(m) ==> Has(newMap, fst(f(KeyAt(m, j), ValAt(m, j))))
 //@     decreases N(m) - Cur(iterator)
+
+//@ func New
+//@   modifies nothing
+//@   ensures [C01 C02 C15 C17] fresh(result) && Inv(result) && N(result) == 0 && fresh(result.tree)
